@@ -254,6 +254,26 @@ def run_case(case):
                     err = float(np.linalg.norm(cl.position - pos))
                     if err > 1e-5 * size:
                         bad("fresh-clamp-position", f"model size {size}: created exactly on the surface at uv={uv} with starting guess {guess}: reports a point {err:.3g} away", uv=list(uv), size=size, guess=guess)
+        # parameter ranges that differ between the two parameters (descending, nested, disjoint, negative): the same
+        # surface re-parametrised so that [-1, 1]^2 maps to the given box
+        for bi, box in enumerate(([[2, 5], [0, 1]], [[0, 10], [2, 5]], [[-3, -1], [4, 6]], [[0, 1], [2, 5]], [[-7, 7], [-0.5, 0.25]])):
+            (u0, u1), (v0, v1) = box
+
+            def surf_b(p, u0=u0, u1=u1, v0=v0, v1=v1):
+                return surf((-1 + 2 * (p[0] - u0) / (u1 - u0), -1 + 2 * (p[1] - v0) / (v1 - v0)))
+
+            for fu, fv in ((0.6, 0.35), (0.2, 0.75), (0.5, 0.5)):
+                uv = (u0 + fu * (u1 - u0), v0 + fv * (v1 - v0))
+                pos = surf_b(uv)
+                for guess in ([uv[0], uv[1]], [uv[0] + 0.02 * (u1 - u0), uv[1] - 0.02 * (v1 - v0)]):
+                    execs += 1
+                    cl = cb.ParametricSurfaceClamp(pos, surf_b, box, guess)
+                    err = float(np.linalg.norm(cl.position - pos))
+                    if err > 1e-5:
+                        bad("fresh-clamp-position", f"bounds {box}: created exactly on the surface at uv={uv} with starting guess {guess}: reports a point {err:.3g} away", box=bi, uv=[fu, fv])
+                    prm = np.asarray(cl.params, dtype=float)
+                    if not (u0 - 1e-9 <= prm[0] <= u1 + 1e-9 and v0 - 1e-9 <= prm[1] <= v1 + 1e-9):
+                        bad("fresh-clamp-outside-bounds", f"bounds {box}: parameters {prm.tolist()}", box=bi, uv=[fu, fv])
     elif what == "inputs_mutated":
         # the declared constraint is the one given at construction: every clamp/link is built twice from float64 arrays,
         # the arrays given to the first one are then changed in place (every non-empty subset of them), and both must
